@@ -1344,6 +1344,29 @@ var (
 	reTSZ   = regexp.MustCompile(`^\d{4}-\d{2}-\d{2}[T ]\d{2}:\d{2}:\d{2}(\.\d{1,9})?` + reTZ + `$`)
 )
 
+// todaysOffset: a zone-less time of day is placed in a named zone "today" (the cast is documented to depend on
+// the current date - the one input of a query that is not an argument). The offset is decided only when it is
+// the same for that time of day yesterday, today and tomorrow, so that neither the moment of the call nor the
+// zone in which "today" is read matters; next to a change of the zone's offset it stays open.
+func todaysOffset(zone *time.Location, t time.Time) (*time.Location, bool) {
+	now := time.Now().UTC()
+	var off *time.Location
+	for _, d := range []int{-1, 0, 1} {
+		day := now.AddDate(0, 0, d)
+		o := fixedOf(time.Date(day.Year(), day.Month(), day.Day(), t.Hour(), t.Minute(), t.Second(), t.Nanosecond(), zone))
+		if off != nil && fixedOffset(o) != fixedOffset(off) {
+			return nil, false
+		}
+		off = o
+	}
+	return off, true
+}
+
+func fixedOffset(l *time.Location) int {
+	_, o := time.Date(2000, 1, 1, 0, 0, 0, 0, l).Zone()
+	return o
+}
+
 func fixedOf(t time.Time) *time.Location {
 	_, off := t.Zone()
 	return time.FixedZone("", off)
@@ -1512,7 +1535,11 @@ func (m *Model) castDT(v *mdt, want, meth, src string) (*mdt, *merr) {
 				return nil, needTZ()
 			}
 			if named {
-				return nil, openErr("time -> timetz under a named zone depends on today's date")
+				off, ok := todaysOffset(e.zone, t)
+				if !ok {
+					return nil, openErr("time -> timetz under a named zone depends on today's date, and the zone's offset at that time of day differs between yesterday, today and tomorrow")
+				}
+				return &mdt{"timetz", time.Date(0, 1, 1, t.Hour(), t.Minute(), t.Second(), t.Nanosecond(), off)}, nil
 			}
 			return &mdt{"timetz", time.Date(0, 1, 1, t.Hour(), t.Minute(), t.Second(), t.Nanosecond(), fixedOf(time.Date(2000, 1, 1, 0, 0, 0, 0, e.zone)))}, nil
 		case "timestamptz":
@@ -1571,10 +1598,17 @@ func (m *Model) compareDT(a, b *mdt) (int, bool, *merr) {
 		if !e.useTZ {
 			return needTZ()
 		}
-		if named {
-			return 0, false, openErr("time vs timetz under a named zone depends on today's date")
-		}
 		off := fixedOf(time.Date(2000, 1, 1, 0, 0, 0, 0, e.zone))
+		if named {
+			zl := a
+			if zl.Kind != "time" {
+				zl = b
+			}
+			var ok bool
+			if off, ok = todaysOffset(e.zone, zl.T); !ok {
+				return 0, false, openErr("time vs timetz under a named zone depends on today's date, and the zone's offset at that time of day differs between yesterday, today and tomorrow")
+			}
+		}
 		conv := func(d *mdt) time.Time {
 			if d.Kind == "timetz" {
 				return d.T
